@@ -122,7 +122,7 @@ Qed.
 Print Assumptions C15_exports_agree.
 
 Example C15_exports_agree_nonvacuous :
-  let c := mkCfg 4 true 1 false in
+  let c := mkCfg 4 true 1 false false in
   let h := [Clear true; Line 1; Print true [mkSeg (lit "a<b&c>d") (Some 1) false; mkSeg [NL] None false];
             Print true [mkSeg CURSOR_HIDE (Some 5) true];      (* a STYLED control segment *)
             BeginCapture; Bell; Print true [mkSeg (lit "x") (Some 2) false]; EndCapture] in
@@ -228,7 +228,7 @@ Qed.
 Print Assumptions C15_capture_returns_what_would_be_written.
 
 Example C15_capture_nonvacuous :
-  let c := mkCfg 10 true 1 false in
+  let c := mkCfg 10 true 1 false true in
   let blk := [Print true [mkSeg (lit "hi") (Some 3) false; mkSeg [NL] None false]; Bell; Line 2] in
   map (@ret) (snd (run all_truthy toy_esc norule nolink true true c st0 (BeginCapture :: blk ++ [EndCapture])))
   = [None; None; None; None; Some (toy_esc 1 false 3 (lit "hi") ++ [NL] ++ BELL_CODE ++ [NL; NL])].
@@ -290,7 +290,7 @@ Theorem C15_capture_inner_refuted : exists c pre blk,
   let '(_, es_p) := run all_truthy toy_esc norule nolink true true c s blk in
   capture_ok_b (ret_or_nil (last es_c (mkEv [] None))) (file_of es_p) (file_of es_c) = false.
 Proof.
-  exists (mkCfg 80 false 0 false), [BeginCapture; Print false [mkSeg (lit "a") None false]],
+  exists (mkCfg 80 false 0 false false), [BeginCapture; Print false [mkSeg (lit "a") None false]],
     [Print false [mkSeg (lit "b") None false]].
   vm_compute. repeat split; reflexivity.
 Qed.
@@ -304,7 +304,7 @@ Theorem C15_capture_nested_refuted : exists c blk,
                       (filter (fun o => negb (is_capture_op o)) blk) in
   capture_ok_b (ret_or_nil (last es_c (mkEv [] None))) (file_of es_p) (file_of es_c) = false.
 Proof.
-  exists (mkCfg 80 false 0 false),
+  exists (mkCfg 80 false 0 false false),
     [Print false [mkSeg (lit "a") None false]; BeginCapture; Print false [mkSeg (lit "b") None false];
      EndCapture; Print false [mkSeg (lit "c") None false]].
   vm_compute. reflexivity.
